@@ -121,6 +121,18 @@ def helperFirstOrders : List (List EmitGroup) :=
   [[.clones, .drops, .eqs, .items], [.clones, .eqs, .drops, .items], [.drops, .clones, .eqs, .items],
    [.drops, .eqs, .clones, .items], [.eqs, .clones, .drops, .items], [.eqs, .drops, .clones, .items]]
 
+/-- the script items of a reference graph in the order `order`, as
+`Lowerer::program` has them in hand: names of script functions / constants
+become indices into the item list; which generated functions an item refers to
+and which drop function a constant has is given from outside -/
+def progOfGraph (g : Graph) (order : List Nat) (clones drops eqs : List HItem)
+    (helpersOf : Nat → List (EmitGroup × Nat)) (dropOf : Nat → Nat) : Prog :=
+  let items := mirItems g order
+  { clones := clones, drops := drops, eqs := eqs,
+    items := items.map fun n =>
+      ⟨g.kind n == .const, dropOf n, helpersOf n,
+       (funcRefs g items n).map items.idxOf, (constRefs g items n).map items.idxOf⟩ }
+
 /-- indices of the constants among the script items, in order -/
 def sConstIdx : Nat → List SItem → List Nat
   | _, [] => []
